@@ -1,5 +1,6 @@
 """C05 - beam CX emission is a population-weighted mean of metastable-resolved coefficients, beam emission a
 charge-weighted sum; both evaluated in the donor/target interaction frame and both zero without beam or receiver."""
+import json
 import math
 
 import numpy as np
@@ -34,7 +35,13 @@ RULE = ("Case = scene-free Plasma (1-4 distinct ion species with Z>=1 drawn from
         "ParametrisedZeemanTriplet / MultipletLineShape with lineshape_args (list or tuple) or lineshape_kwargs; BES ratio "
         "options omitted / floats / callables. ONE model instance is evaluated at 1-4 (beam point, plasma point, beam "
         "direction, view) tuples, optionally with model.line or beam.energy re-assigned in between, and the first "
-        "evaluation is repeated at the end (bit for bit). Non-trivial: an evaluation with beam density > 0 and >= 2 ion "
+        "evaluation is made twice in a row and repeated at the end, after evaluations into spectra with more and with fewer "
+        "bins (bit for bit). INTERFERENCE: every case carries a second instance B of the same class, constructed the same "
+        "way (same wiring, same option forms, defaults left to default) with its own plasma / beam / provider: mostly the "
+        "same keys (species list, line, beam element) but another provider seed, densities, temperatures, flows, beam, "
+        "points, sometimes one species more or fewer or another line. Order A-B-A: A's sequence, B built and used "
+        "(evaluations checked against B's own oracle, line / energy setters), then A's and B's first evaluation again, "
+        "bit for bit; order B-first: A built, B built and used, then A used for the first time (A's oracle). Non-trivial: an evaluation with beam density > 0 and >= 2 ion "
         "species with non-zero density AND non-zero flow, plus for CX >= 2 donor metastables and receiver density > 0; "
         "distinct by case hash.")
 ASSUMPTIONS = ["the analytic mock rates are the 'individual coefficients' of the statement; the mock classes are trusted",
@@ -54,7 +61,7 @@ TOLERANCES = {
                                    "|v_beam - u|^2 cancels",
     "bounds min q_i <= q <= max q_i": "1e-9 relative slack on both ends",
     "second call into the same spectrum doubles it": "1e-12 relative to the largest sample",
-    "zero beam / receiver density; repeat of the first evaluation; earlier results after later calls": "exact (bit for bit)",
+    "zero beam / receiver density; repeats (immediate, end of sequence, after another instance was built and used); earlier results after later calls": "exact (bit for bit: the arithmetic is deterministic)",
     "Plasma.z_effective": "1e-12 relative (two sums and a quotient)",
 }
 _CX_SHAPES = ["default", "gaussian", "zeeman", "zeeman-args", "zeeman-kwargs", "pzeeman-args", "multiplet-args", "multiplet-kwargs"]
@@ -67,7 +74,11 @@ REQUIRED_LABELS = (["cx:zero:beam", "cx:zero:receiver", "cx:meta:1", "cx:meta:2"
                    + ["%s:form:%s" % (s, f) for s in ("cx", "bes") for f in ("callable", "float", "function3d", "v:vector", "v:callable", "v:function")]
                    + ["bes:zero:beam", "bes:zero:ions", "bes:neutrals", "bes:nt", "bes:Z>=2", "bes:op:line", "bes:op:energy",
                       "bes:steps:1", "bes:steps:>=3", "bes:repeat", "bes:flows:equal", "bes:flows:comoving", "bes:rates:one=0",
-                      "bes:rates:const", "bes:ratios:default", "bes:ratios:floats", "bes:ratios:callables", "bes:E:int", "bes:E:0"])
+                      "bes:rates:const", "bes:ratios:default", "bes:ratios:floats", "bes:ratios:callables", "bes:E:int", "bes:E:0"]
+                   + ["%s:%s" % (s, x) for s in ("cx", "bes") for x in
+                      ("interference:A-B-A", "interference:B-first", "interference:same-line", "interference:B-more-species",
+                       "interference:B-fewer-species", "repeat:immediate", "repeat:after-bigger", "repeat:after-smaller")]
+                   + ["cx:interference:other-line"])
 
 C_LIGHT = 299792458.0
 E_CH = 1.602176634e-19
@@ -166,7 +177,8 @@ def _where(draw, length):
     where = draw(_rare([(0.03, -0.01), (0.03, 1.01), (0.02, -2.0), (0.02, 3.0), (0.03, 0.0), (0.03, 1.0)]))
     z = draw(st.floats(0.0, 1.0)) if where is None else where
     return {"bp": [draw(st.floats(-0.3, 0.3)), draw(st.floats(-0.3, 0.3)), z * length], "pp": draw(_vec(1.0)),
-            "dir": draw(_direction()), "dscale": draw(st.sampled_from([1.0, 1.0, 0.01, 37.5])), "obs": draw(_direction())}
+            "dir": draw(_direction()), "dscale": draw(st.sampled_from([1.0, 1.0, 0.01, 37.5])), "obs": draw(_direction()),
+            "bins": draw(st.integers(1, 40))}
 
 
 @st.composite
@@ -245,6 +257,62 @@ def _steps(draw, case, cx):
     return steps
 
 
+def _variant(draw, case, cx):
+    """Parameters of a SECOND instance B of the same class: same way of construction (wiring, option forms, defaults left
+    to default), mostly the same keys (species list, line, beam element), but other rate functions (provider seed),
+    densities, temperatures, flows, beam, points - and sometimes one species more or fewer, or another line."""
+    keep = ["plasma", "beam", "win", "wire"] + (["recv", "transition", "ls", "lsp"] if cx else ["ratios"])
+    o = json.loads(json.dumps({k: case[k] for k in keep}))
+    seed = draw(st.integers(0, 2 ** 31 - 1))
+    nmeta = (draw(_rare([(0.12, 1), (0.15, 4)])) or draw(st.integers(2, 3))) if cx else 1
+    o["rates"] = {"seed": seed + 1 if seed == case["rates"]["seed"] else seed, "metastables": nmeta,
+                  "cx_order": list(draw(st.permutations(list(range(nmeta))))), "q0": {"pop": draw(_logu(1e-3, 3.0))},
+                  "cache_lists": case["rates"]["cache_lists"]}
+    sp = o["plasma"]["species"]
+    for x in sp:
+        x["n"] = x["n"] * draw(_logu(0.1, 10.0))
+        x["T"] = min(5e3, max(1.0, x["T"] * draw(_logu(0.2, 5.0))))
+        x["v"] = draw(_flow())
+    size = draw(_rare([(0.15, "fewer"), (0.15, "more")]))
+    if size == "fewer" and len(sp) >= 2:
+        protect = o["recv"] if cx else [i for i, x in enumerate(sp) if x["q"] >= 1][0]
+        j = draw(st.sampled_from([i for i in range(len(sp)) if i != protect]))
+        del sp[j]
+        if cx and j < o["recv"]:
+            o["recv"] -= 1
+    elif size == "more":
+        el = draw(st.sampled_from([p[0] for p in POOL]))
+        q = draw(st.integers(0, ZMAX[el]))
+        if not any(x["el"] == el and x["q"] == q for x in sp):
+            sp.append(draw(_species(el, q)))
+    o["plasma"]["B"] = draw(_vec(4.0))
+    nb = draw(_beam(["hydrogen", "deuterium", "tritium", "helium"] if cx else ["hydrogen", "deuterium", "tritium"]))
+    if draw(st.booleans()):
+        nb["el"] = case["beam"]["el"]
+    o["beam"] = nb
+    o["win"]["bins"] = draw(st.integers(1, 40))
+    o["at"] = draw(_where(nb["length"]))
+    if cx and draw(_rare([(0.3, "other-line")])) and not o["ls"].startswith("multiplet"):
+        o["recv"] = draw(st.sampled_from([i for i, x in enumerate(sp) if x["q"] >= 1]))
+        up = draw(st.integers(2, 12))
+        o["transition"] = [up, draw(st.integers(1, up - 1))]
+    if cx:
+        o["lsp"]["pz"] = [draw(st.floats(1e-3, 0.2)), draw(st.floats(0.0, 0.5)), draw(st.floats(-0.5, 0.0))]
+    else:
+        o["ratio_values"] = [draw(st.floats(0.1, 2.0)) for _ in range(4)]
+    # B is used: one or two evaluations, with its line / energy setters called in between
+    st1 = draw(_where(nb["length"]))
+    op = draw(st.sampled_from(["line", "energy", None]))
+    if op == "line":
+        st1["op"] = "line"
+        if cx:
+            st1["recv"], st1["transition"] = o["recv"], list(o["transition"])
+    elif op == "energy":
+        st1["op"], st1["E"] = "energy", draw(_energy())
+    o["steps"] = [st1]
+    return o
+
+
 def strategy_cx():
     @st.composite
     def s(draw):
@@ -283,6 +351,8 @@ def strategy_cx():
         if ov:
             case["rates"]["override"] = ov
             case["rates_class"] = kind
+        case["other"] = _variant(draw, case, True)
+        case["interf"] = draw(st.sampled_from(["A-B-A", "B-first"]))
         return case
     return s()
 
@@ -309,6 +379,8 @@ def strategy_bes():
         if ov:
             case["rates"]["override"] = ov
             case["rates_class"] = kind
+        case["other"] = _variant(draw, case, False)
+        case["interf"] = draw(st.sampled_from(["A-B-A", "B-first"]))
         return case
     return s()
 
@@ -543,7 +615,7 @@ class Call:
         self.bp, self.pp = Point3D(*at["bp"]), Point3D(*at["pp"])
         self.bd = Vector3D(*[x * at["dscale"] for x in at["dir"]])
         self.ob = Vector3D(*at["obs"])
-        self.spectrum = Spectrum(wl * (1 - win["half"]), wl * (1 + win["half"]), win["bins"])
+        self.spectrum = Spectrum(wl * (1 - win["half"]), wl * (1 + win["half"]), at.get("bins", win["bins"]))
         self._snap = self._state()
 
     def _state(self):
@@ -599,48 +671,83 @@ def _cx_shape(case, wl):
     return {"lineshape": MultipletLineShape, "lineshape_kwargs": {"multiplet": mult}}
 
 
-def run_cx(case, ctx):
-    log = []
-    rates = BeamRates(case["rates"])
-    sp = case["plasma"]["species"]
-    nmeta = rates.nmeta
-    # a multiplet table holds absolute wavelengths and so belongs to one line: there, a 'line' step re-assigns an equal Line
-    evs = _sequence(case, keep_line=case["ls"].startswith("multiplet"))
+class Subject:
+    """ONE model instance (BeamCXLine or BeamEmissionLine) with its own plasma, beam and provider, and everything
+    that is done with it: the sequence of evaluations of its case, repeats, and the ownership checks."""
 
-    def line_of(ev):
-        r = sp[ev["recv"]]
+    def __init__(self, kind, case, ctx, tag):
+        self.kind, self.case, self.ctx, self.tag = kind, case, ctx, tag
+        self.log = []
+        self.rates = BeamRates(case["rates"])
+        self.sp = case["plasma"]["species"]
+        self.nmeta = self.rates.nmeta
+        self.nt = False
+        self.first = None
+        if kind == "cx":
+            # a multiplet table holds absolute wavelengths and so belongs to one line: there, a 'line' step re-assigns an equal Line
+            self.evs = _sequence(case, keep_line=case["ls"].startswith("multiplet"))
+            line0, wl0 = self.line_of(self.evs[0])
+            self.kw = _cx_shape(case, wl0)
+            cls = BeamCXLine
+        else:
+            self.evs = _sequence(case)
+            line0, wl0 = self.line_of(self.evs[0])
+            rv = case["ratio_values"]
+            if case["ratios"] == "floats":
+                self.kw = {"sigma_to_pi": rv[0], "sigma1_to_sigma0": rv[1], "pi2_to_pi3": rv[2], "pi4_to_pi3": rv[3]}
+            elif case["ratios"] == "callables":
+                self.kw = {"sigma_to_pi": (lambda n, e: rv[0] + 1e-7 * e), "sigma1_to_sigma0": (lambda n: rv[1]),
+                           "pi2_to_pi3": (lambda n: rv[2] + 1e-21 * n), "pi4_to_pi3": (lambda n: rv[3])}
+            else:
+                self.kw = {}
+            cls = BeamEmissionLine
+        self.snap_args = repr(self.kw.get("lineshape_args")), repr(self.kw.get("lineshape_kwargs"))
+        with ctx.cut("construct"):
+            self.b = build(case, self.log, ctx)
+            self.model = wire(case, self.b, cls, (line0,), self.kw, ctx)
+        self.cur_line = line0
+        evs = self.evs
+        ctx.label("steps:%d" % (len(evs) - 1) if len(evs) <= 3 else "steps:>=3")
+        if kind == "cx":
+            ctx.label("meta:%d" % self.nmeta, "ls:" + case["ls"])
+            if self.rates.metastables() != sorted(self.rates.metastables()):
+                ctx.label("order:shuffled")
+            if case["rates"].get("cache_lists"):
+                ctx.label("provider:cached-lists")
+        else:
+            ctx.label("ratios:" + case["ratios"])
+        if "rates_class" in case:
+            ctx.label("rates:" + case["rates_class"])
+        if any(x["q"] == 0 for x in self.sp):
+            ctx.label("neutrals")
+        if isinstance(case["beam"]["E"], int):
+            ctx.label("E:0" if case["beam"]["E"] == 0 else "E:int")
+
+    def line_of(self, ev):
+        """a fresh Line object for the evaluation (equal to the current one unless a step changes it) and its wavelength"""
+        if self.kind == "bes":
+            bel = self.case["beam"]["el"]
+            return Line(getattr(EL, bel), 0, (3, 2)), self.rates.wavelength(bel, 0, (3, 2))
+        r = self.sp[ev["recv"]]
         tr = tuple(ev["transition"])
-        return Line(getattr(EL, r["el"]), r["q"] - 1, tr), rates.wavelength(r["el"], r["q"] - 1, tr)
+        return Line(getattr(EL, r["el"]), r["q"] - 1, tr), self.rates.wavelength(r["el"], r["q"] - 1, tr)
 
-    line0, wl0 = line_of(evs[0])
-    kw = _cx_shape(case, wl0)
-    snap_args = repr(kw.get("lineshape_args")), repr(kw.get("lineshape_kwargs"))
-    with ctx.cut("construct"):
-        b = build(case, log, ctx)
-        model = wire(case, b, BeamCXLine, (line0,), kw, ctx)
-    ctx.label("meta:%d" % nmeta, "ls:" + case["ls"], "steps:%d" % (len(evs) - 1) if len(evs) <= 3 else "steps:>=3")
-    if rates.metastables() != sorted(rates.metastables()):
-        ctx.label("order:shuffled")
-    if case["rates"].get("cache_lists"):
-        ctx.label("provider:cached-lists")
-    if "rates_class" in case:
-        ctx.label("rates:" + case["rates_class"])
-    if any(s["q"] == 0 for s in sp):
-        ctx.label("neutrals")
-    if isinstance(case["beam"]["E"], int):
-        ctx.label("E:0" if case["beam"]["E"] == 0 else "E:int")
+    def _emit(self, ev, wl):
+        call = Call(ev["at"], wl, self.case["win"])
+        with self.ctx.cut("emission"):
+            out = call.run(self.model)
+        self.ctx.check(call.untouched(), "caller-owned", "emission() modified a point / direction argument")
+        return call, out, np.array(out.samples)
 
-    nt = False
-    first = None
-    cur_line = line0
-    for i, ev in enumerate(evs):
-        line, wl = line_of(ev)          # a fresh Line object, equal to the current one unless the step changes it
-        if ev["op"] == "line" or (ev["op"] == "restore" and line != cur_line):
+    def evaluate(self, i, ev):
+        ctx, model, b = self.ctx, self.model, self.b
+        line, wl = self.line_of(ev)
+        if ev["op"] == "line" or (ev["op"] == "restore" and line != self.cur_line):
             with ctx.cut("line-setter"):
                 model.line = line
                 g1, g2 = model.line, model.line
             ctx.check(g1 is line and g2 is line, "line-getter", "model.line does not return the assigned Line")
-            cur_line = line
+            self.cur_line = line
             if ev["op"] == "line":
                 ctx.label("op:line")
         if ev["op"] in ("energy", "restore") and b.beam.energy != float(ev["E"]):
@@ -648,30 +755,106 @@ def run_cx(case, ctx):
                 b.beam.energy = ev["E"]
             if ev["op"] == "energy":
                 ctx.label("op:energy")
-        if sp[ev["recv"]]["el"] in ISOTOPES:
+        if self.kind == "cx" and self.sp[ev["recv"]]["el"] in ISOTOPES:
             ctx.label("isotope-receiver")
-        del log[:]
-        call = Call(ev["at"], wl, case["win"])
-        with ctx.cut("emission"):
-            out = call.run(model)
-        samples = np.array(out.samples)
-        ctx.check(call.untouched(), "caller-owned", "emission() modified a point / direction argument")
-        nt = _check_cx(case, ctx, ev, b, model, call, out, samples, list(log), nmeta, i == 0) or nt
+        del self.log[:]
+        call, out, samples = self._emit(ev, wl)
+        log = list(self.log)
         if i == 0:
-            first = (samples.copy(), out, np.array(out.samples))      # result, its Spectrum, content after the additive check
-        if ev["op"] == "restore":
-            ctx.label("repeat")
-            ctx.check(np.array_equal(samples, first[0]), "repeat",
-                      lambda: "first evaluation repeated after %d others differs: max |diff| %r of %r"
-                      % (len(evs) - 2, float(np.max(np.abs(samples - first[0]))), float(np.max(np.abs(first[0])))))
-    # what was handed out by the first evaluation is still intact after the later ones
-    ctx.check(np.array_equal(np.array(first[1].samples), first[2]), "aliasing", "the first spectrum changed during later evaluations")
-    ctx.check((repr(kw.get("lineshape_args")), repr(kw.get("lineshape_kwargs"))) == snap_args, "caller-owned",
-              "lineshape_args / lineshape_kwargs were modified")
-    ctx.check(b.ad.lists_intact(), "provider-owned", "a list returned by atomic_data.beam_cx_pec() was modified by the model")
+            # the same call twice in a row (fresh spectrum): bit for bit
+            _, _, again = self._emit(ev, wl)
+            ctx.label("repeat:immediate")
+            ctx.check(np.array_equal(again, samples), "repeat-immediate",
+                      lambda: "the same call twice in a row differs: max |diff| %r of %r"
+                      % (float(np.max(np.abs(again - samples))), float(np.max(np.abs(samples)))))
+        if self.kind == "cx":
+            nt = _check_cx(self.case, ctx, ev, b, model, call, out, samples, log, self.nmeta, i == 0)
+        else:
+            nt = _check_bes(self.case, ctx, ev, b, model, call, out, samples, log, i == 0)
+        self.nt = nt or self.nt
+        if i == 0:
+            self.first = (samples.copy(), out, np.array(out.samples))      # result, its Spectrum, content after the additive check
+        return samples
+
+    def sequence(self):
+        evs = self.evs
+        bins0 = evs[0]["at"].get("bins", self.case["win"]["bins"])
+        for i, ev in enumerate(evs):
+            samples = self.evaluate(i, ev)
+            if ev["op"] == "restore":
+                self.ctx.label("repeat")
+                between = [e["at"].get("bins", self.case["win"]["bins"]) for e in evs[1:-1]]
+                if any(x > bins0 for x in between):
+                    self.ctx.label("repeat:after-bigger")
+                if any(x < bins0 for x in between):
+                    self.ctx.label("repeat:after-smaller")
+                self._same_as_first(samples, "repeat", "after %d other evaluations" % (len(evs) - 2))
+        self.intact()
+
+    def again(self, what, why):
+        """the first evaluation once more (the sequence has restored line and energy): bit for bit, nothing else disturbed"""
+        ev = dict(self.evs[0])
+        ev["op"] = "restore"
+        del self.log[:]
+        _, wl = self.line_of(ev)
+        _, _, samples = self._emit(ev, wl)
+        self._same_as_first(samples, what, why)
+        self.intact()
+
+    def _same_as_first(self, samples, what, why):
+        first = self.first[0]
+        self.ctx.check(np.array_equal(samples, first), what,
+                       lambda: "%s: first evaluation repeated %s differs: max |diff| %r of %r"
+                       % (self.tag, why, float(np.max(np.abs(samples - first))), float(np.max(np.abs(first)))))
+
+    def intact(self):
+        ctx = self.ctx
+        # what was handed out by the first evaluation is still intact after the later ones
+        ctx.check(np.array_equal(np.array(self.first[1].samples), self.first[2]), "aliasing",
+                  "%s: the first spectrum changed during later evaluations" % self.tag)
+        ctx.check((repr(self.kw.get("lineshape_args")), repr(self.kw.get("lineshape_kwargs"))) == self.snap_args, "caller-owned",
+                  "lineshape_args / lineshape_kwargs were modified")
+        ctx.check(self.b.ad.lists_intact(), "provider-owned", "a list returned by atomic_data.beam_cx_pec() was modified by the model")
+
+
+def _run(kind, case, ctx):
+    """A alone, or A and a second instance B of the same class (same way of construction, other parameters) interleaved."""
+    other, order = case.get("other"), case.get("interf")
+    A = Subject(kind, case, ctx, "A")
+    if other is None:
+        A.sequence()
+        nt = A.nt
+    elif order == "B-first":
+        # A built, B built, B used, then A used for the first time: A must satisfy the oracle as if only A existed
+        B = Subject(kind, other, ctx, "B")
+        B.sequence()
+        A.sequence()
+        B.again("interference", "after the other instance was built later but used in between")
+        ctx.label("interference:B-first")
+        nt = A.nt or B.nt
+    else:
+        # A used, then B built and used (evaluations, line / energy setters), then A again: exactly as before
+        A.sequence()
+        B = Subject(kind, other, ctx, "B")
+        B.sequence()
+        A.again("interference", "after a second instance was built and used")
+        B.again("interference", "after the first instance was used again")
+        ctx.label("interference:A-B-A")
+        nt = A.nt or B.nt
+    if other is not None:
+        same_line = kind == "bes" or (other["plasma"]["species"][other["recv"]]["el"], other["plasma"]["species"][other["recv"]]["q"],
+                                      other["transition"]) == (case["plasma"]["species"][case["recv"]]["el"],
+                                                               case["plasma"]["species"][case["recv"]]["q"], case["transition"])
+        ctx.label("interference:same-line" if same_line else "interference:other-line")
+        na, nb = len(case["plasma"]["species"]), len(other["plasma"]["species"])
+        ctx.label("interference:B-more-species" if nb > na else "interference:B-fewer-species" if nb < na else "interference:B-same-species")
     if nt:
         ctx.label("nt")
     ctx.nt(nt)
+
+
+def run_cx(case, ctx):
+    _run("cx", case, ctx)
 
 
 def _check_cx(case, ctx, ev, b, model, call, out, samples, log, nmeta, is_first):
@@ -749,64 +932,7 @@ def _check_cx(case, ctx, ev, b, model, call, out, samples, log, nmeta, is_first)
 
 # ----------------------------------------------------------------------------------------------- BES
 def run_bes(case, ctx):
-    log = []
-    rates = BeamRates(case["rates"])
-    bel = case["beam"]["el"]
-    wl = rates.wavelength(bel, 0, (3, 2))
-    evs = _sequence(case)
-    rv = case["ratio_values"]
-    if case["ratios"] == "floats":
-        kw = {"sigma_to_pi": rv[0], "sigma1_to_sigma0": rv[1], "pi2_to_pi3": rv[2], "pi4_to_pi3": rv[3]}
-    elif case["ratios"] == "callables":
-        kw = {"sigma_to_pi": (lambda n, e: rv[0] + 1e-7 * e), "sigma1_to_sigma0": (lambda n: rv[1]),
-              "pi2_to_pi3": (lambda n: rv[2] + 1e-21 * n), "pi4_to_pi3": (lambda n: rv[3])}
-    else:
-        kw = {}
-    line0 = Line(getattr(EL, bel), 0, (3, 2))
-    with ctx.cut("construct"):
-        b = build(case, log, ctx)
-        model = wire(case, b, BeamEmissionLine, (line0,), kw, ctx)
-    ctx.label("ratios:" + case["ratios"], "steps:%d" % (len(evs) - 1) if len(evs) <= 3 else "steps:>=3")
-    if any(s["q"] == 0 for s in case["plasma"]["species"]):
-        ctx.label("neutrals")
-    if "rates_class" in case:
-        ctx.label("rates:" + case["rates_class"])
-    if isinstance(case["beam"]["E"], int):
-        ctx.label("E:0" if case["beam"]["E"] == 0 else "E:int")
-
-    nt = False
-    first = None
-    for i, ev in enumerate(evs):
-        if ev["op"] == "line":
-            line = Line(getattr(EL, bel), 0, (3, 2))      # an equal but distinct Line object: the cache is rebuilt
-            with ctx.cut("line-setter"):
-                model.line = line
-                g1, g2 = model.line, model.line
-            ctx.check(g1 is line and g2 is line, "line-getter", "model.line does not return the assigned Line")
-            ctx.label("op:line")
-        if ev["op"] in ("energy", "restore") and b.beam.energy != float(ev["E"]):
-            with ctx.cut("energy-setter"):
-                b.beam.energy = ev["E"]
-            if ev["op"] == "energy":
-                ctx.label("op:energy")
-        del log[:]
-        call = Call(ev["at"], wl, case["win"])
-        with ctx.cut("emission"):
-            out = call.run(model)
-        samples = np.array(out.samples)
-        ctx.check(call.untouched(), "caller-owned", "emission() modified a point / direction argument")
-        nt = _check_bes(case, ctx, ev, b, model, call, out, samples, list(log), i == 0) or nt
-        if i == 0:
-            first = (samples.copy(), out, np.array(out.samples))
-        if ev["op"] == "restore":
-            ctx.label("repeat")
-            ctx.check(np.array_equal(samples, first[0]), "repeat",
-                      lambda: "first evaluation repeated after %d others differs: max |diff| %r of %r"
-                      % (len(evs) - 2, float(np.max(np.abs(samples - first[0]))), float(np.max(np.abs(first[0])))))
-    ctx.check(np.array_equal(np.array(first[1].samples), first[2]), "aliasing", "the first spectrum changed during later evaluations")
-    if nt:
-        ctx.label("nt")
-    ctx.nt(nt)
+    _run("bes", case, ctx)
 
 
 def _check_bes(case, ctx, ev, b, model, call, out, samples, log, is_first):
@@ -843,6 +969,6 @@ def _check_bes(case, ctx, ev, b, model, call, out, samples, log, is_first):
 
 
 SUBCHECKS = {
-    "cx": Given(strategy_cx, run_cx, quick=2500, thorough=50000),
-    "bes": Given(strategy_bes, run_bes, quick=1500, thorough=30000),
+    "cx": Given(strategy_cx, run_cx, quick=2000, thorough=40000),
+    "bes": Given(strategy_bes, run_bes, quick=1200, thorough=25000),
 }
